@@ -25,9 +25,10 @@ VARIABLES
   data,      \* index data of the current write ( << >> before the first )
   nwrites,
   last,      \* what the last write emitted: [min, max, spacing, direction]
-  fresh      \* the last step was a write (the obligations are stated at that moment)
+  fresh,     \* the last step was a write (the obligations are stated at that moment)
+  ub         \* the values the user had assigned when the last write started
 
-vars == << indexed, slots, data, nwrites, last, fresh >>
+vars == << indexed, slots, data, nwrites, last, fresh, ub >>
 
 Names == {"min", "max", "spacing", "direction"}
 NoSlot == [set |-> FALSE, v |-> 0, user |-> FALSE]
@@ -70,13 +71,13 @@ Init ==
   /\ indexed \in BOOLEAN
   /\ slots \in [Names -> {NoSlot} \cup { Slot(x, TRUE) : x \in UserVals }]
   /\ data = << >> /\ nwrites = 0
-  /\ last = [n \in Names |-> NoVal] /\ fresh = FALSE
+  /\ last = [n \in Names |-> NoVal] /\ fresh = FALSE /\ ub = [n \in Names |-> NoVal]
 
 SetUser(n, x) ==
   /\ nwrites < MaxWrites /\ nwrites >= 1 /\ fresh          \* the user changes one value between two writes
   /\ slots' = [slots EXCEPT ![n] = Slot(x, TRUE)]
   /\ fresh' = FALSE
-  /\ UNCHANGED << indexed, data, nwrites, last >>
+  /\ UNCHANGED << indexed, data, nwrites, last, ub >>
 
 AssignIfNone(s, n, x) == IF ~s[n].set /\ x.has THEN [s EXCEPT ![n] = Slot(x.v, FALSE)] ELSE s
 
@@ -93,6 +94,7 @@ Write(d) ==
      IN /\ slots' = s1
         /\ last' = [n \in Names |-> IF s1[n].set THEN Val(s1[n].v) ELSE NoVal]
   /\ data' = d /\ nwrites' = nwrites + 1 /\ fresh' = TRUE
+  /\ ub' = [n \in Names |-> IF slots[n].set /\ slots[n].user THEN Val(slots[n].v) ELSE NoVal]
   /\ UNCHANGED indexed
 
 Next == (\E n \in LateNames, x \in {0, 7} : SetUser(n, x)) \/ (\E d \in Seqs : Write(d))
@@ -104,7 +106,7 @@ Written == fresh /\ nwrites > 0 /\ data # << >>
 DS == { data[k] : k \in DOMAIN data }
 
 (* any value supplied by the user is written unchanged (also falsy ones like 0) *)
-UserValueKept == Written => \A n \in Names : UserVal(n) => last[n] = Val(slots[n].v)
+UserValueKept == Written => \A n \in Names : (ub[n].has => last[n] = ub[n]) /\ (UserVal(n) <=> ub[n].has)
 
 IndexBounds ==
   (Written /\ indexed) => /\ (~UserVal("min") => last["min"] = Val(Min(DS)))
